@@ -110,6 +110,9 @@ def run(ctx):
         "target_humidity": [(0, 100)], "int(T)": [(13, 43)], "half(T)": [(0, 1)],
     }
     self_p = fn.params[0]
+    from ..ctor import init_attrs
+    cmd_defaults = init_attrs(prog, fn.cls) if fn.cls is not None else {}
+    extras = set()
 
     def leaf(tm, be):
         if tm[0] == "attr" and tm[1] == ("param", self_p):
@@ -120,6 +123,11 @@ def run(ctx):
                 return LinV({n: 1})
             if n == "target_temperature":
                 return LinV({"int(T)": 1, "half(T)": Fraction(1, 2)})
+            if strip(cmd_defaults.get(n, ("top",))) in (("const", False), ("const", True)):
+                # a flag the command class itself declares (default off / on) beyond the state the property lists: one more boolean source.  It
+                # may occupy bits the reference rows leave unclaimed; it may not share a bit with a listed field (collision check below)
+                extras.add(n)
+                return Pred(n)
             return Top(f"attribute {n} has no declared domain")
         if tm[0] == "item" and call_is(strip(tm[1]), "math.modf"):
             arg = strip(strip(tm[1])[2][0])
@@ -182,6 +190,8 @@ def run(ctx):
                 if want is not None and want[0] == "any":
                     continue
                 ok = want == got
+                if want is None and got is not None and got[0] == "pred" and got[1] in extras:
+                    ok = True          # (an additional flag in a bit the listed state does not use)
                 if want is not None and want[0] == "src" and got is not None and got[0] == "src":
                     ok = got[1] == want[1] and got[2] == want[2] and got[3] == want[3]
                 if want is not None and want[0] == "src" and got is None:
